@@ -35,7 +35,7 @@ def derivative(function, x, jit=True):
         return jax.jacrev(function)(x)
 
     if isscalar(x):
-        x = validate_float(x, "x")
+        x = validate_float(x, "x", allow_inf=True)
         return get_grad(x)
 
     x = validate_1d(x)
